@@ -164,5 +164,5 @@ pub fn run(ctx: &Ctx) {
     ctx.rule("successful fit_with_statistics results over three problem classes: shape sweep (M in 1..5, P in 1..4 incl. shared parameters and two-parameter functions, degrees of freedom 1..30, noise 1e-4..1e-1, all weight classes), separated decays, and an over-parameterised noisy class (three decays + offset, N-M-P in 1..4, up to 10% noise) in which fits collapse basis functions onto each other; f32/f64. Every Ok: diagonal finite and >= 0, variance accessors bit-equal to the diagonal segments [0,M) / [M,M+P), correlation == cov/sqrt(cov_ii cov_jj) (4 ulp), unit diagonal, entries in [-1,1]. Where the oracle's Jacobi eigen-solver finds H^T H positive definite with kappa·eps <= 1e-3: Cov·(H^T H) == sigma^2·I with H = W[Phi | D_k c] built by the oracle in the documented order, and symmetry. distinct = problem hash");
     ctx.assume("value oracles are inconclusive where the normal matrix is numerically singular; sign, range and slicing are checked on every Ok");
     let t = ctx.tier;
-    ctx.run_cases("fits", t.pick(16000, 100000), t.pick(20.0, 200.0), |r, c, o| if c % 4 == 0 { case_t::<f32>(r, c, o) } else { case_t::<f64>(r, c, o) });
+    ctx.run_cases("fits", t.pick(16000, 800000), t.pick(20.0, 900.0), |r, c, o| if c % 4 == 0 { case_t::<f32>(r, c, o) } else { case_t::<f64>(r, c, o) });
 }
